@@ -374,7 +374,8 @@ type Terminal struct {
 	suppress           bool
 	sigstop            bool
 	startChan          chan fitpad
-	killChan           chan bool
+	killChan           chan killRequest
+	previewSeq         int64
 	previewKiller      func()
 	previewStopped     bool
 	previewKillerMutex sync.Mutex
@@ -672,6 +673,14 @@ type previewRequest struct {
 	list         []*Item
 	env          []string
 	query        string
+	seq          int64
+}
+
+// killRequest asks the previewer to terminate the commands for the preview
+// requests up to seq
+type killRequest struct {
+	immediately bool
+	seq         int64
 }
 
 type previewResult struct {
@@ -986,7 +995,7 @@ func NewTerminal(opts *Options, eventBox *util.EventBox, executor *util.Executor
 		slab:               util.MakeSlab(slab16Size, slab32Size),
 		theme:              opts.Theme,
 		startChan:          make(chan fitpad, 1),
-		killChan:           make(chan bool),
+		killChan:           make(chan killRequest, 1),
 		serverInputChan:    make(chan []*action, 100),
 		keyChan:            make(chan tui.Event),
 		eventChan:          make(chan tui.Event, 6), // start | (load + result + zero|one) | (focus) | (resize)
@@ -4250,11 +4259,30 @@ func (t *Terminal) toggleItem(item *Item) bool {
 	return true
 }
 
-func (t *Terminal) killPreview() {
-	select {
-	case t.killChan <- true:
-	default:
+// sendKill leaves the request for the previewer. A request is never dropped; it
+// replaces the pending one, which it covers.
+func (t *Terminal) sendKill(request killRequest) {
+	for {
+		select {
+		case t.killChan <- request:
+			return
+		default:
+			select {
+			case <-t.killChan:
+			default:
+			}
+		}
 	}
+}
+
+func (t *Terminal) killPreview() {
+	t.sendKill(killRequest{true, math.MaxInt64})
+}
+
+func (t *Terminal) enqueuePreview(template string, list []*Item) {
+	t.cancelPreview()
+	t.previewSeq++
+	t.previewBox.Set(reqPreviewEnqueue, previewRequest{template, t.evaluateScrollOffset(), list, t.environForPreview(), string(t.input), t.previewSeq})
 }
 
 // killPreviewNow synchronously kills the preview command that is running
@@ -4275,10 +4303,7 @@ func (t *Terminal) setPreviewKiller(killer func()) {
 }
 
 func (t *Terminal) cancelPreview() {
-	select {
-	case t.killChan <- false:
-	default:
-	}
+	t.sendKill(killRequest{false, t.previewSeq})
 }
 
 func (t *Terminal) pwindowSize() tui.TermSize {
@@ -4467,6 +4492,7 @@ func (t *Terminal) Loop() error {
 				var commandTemplate string
 				var env []string
 				var query string
+				var seq int64
 				initialOffset := 0
 				t.previewBox.Wait(func(events *util.Events) {
 					for req, value := range *events {
@@ -4481,6 +4507,7 @@ func (t *Terminal) Loop() error {
 							items = request.list
 							env = request.env
 							query = request.query
+							seq = request.seq
 						}
 					}
 					events.Clear()
@@ -4588,8 +4615,12 @@ func (t *Terminal) Loop() error {
 									break Loop
 								case <-timer.C:
 									t.reqBox.Set(reqPreviewDelayed, version)
-								case immediately := <-t.killChan:
-									if immediately {
+								case request := <-t.killChan:
+									if request.seq < seq {
+										// The request was for the previous commands
+										continue
+									}
+									if request.immediately {
 										util.KillCommand(cmd)
 									} else {
 										// We can immediately kill a long-running preview program
@@ -4637,8 +4668,7 @@ func (t *Terminal) Loop() error {
 	refreshPreview := func(command string) {
 		if len(command) > 0 && t.canPreview() {
 			_, list := t.buildPlusList(command, false)
-			t.cancelPreview()
-			t.previewBox.Set(reqPreviewEnqueue, previewRequest{command, t.evaluateScrollOffset(), list, t.environForPreview(), string(t.input)})
+			t.enqueuePreview(command, list)
 		}
 	}
 
@@ -5082,9 +5112,7 @@ func (t *Terminal) Loop() error {
 					if t.canPreview() {
 						valid, list := t.buildPlusList(t.previewOpts.command, false)
 						if valid {
-							t.cancelPreview()
-							t.previewBox.Set(reqPreviewEnqueue,
-								previewRequest{t.previewOpts.command, t.evaluateScrollOffset(), list, t.environForPreview(), string(t.input)})
+							t.enqueuePreview(t.previewOpts.command, list)
 						}
 					} else {
 						// Discard the preview content so that it won't accidentally appear
